@@ -367,6 +367,56 @@ def random_edit(r: random.Random, root, *, allow_comments: bool = True, focus=No
                 except Exception as x:
                     e.exc = x
                 return e
+        if 0.09 <= kind < 0.13 and allow_comments and focus is None:
+            # --- comment attribution calls and standalone comment entries (with a fitting indent)
+            ws = []
+            for p_, m_ in trees:
+                for name_ in class_props(type(m_)):
+                    if name_.endswith('_with_comments'):
+                        try:
+                            ws.append((p_, m_, name_, getattr(m_, name_)))
+                        except Exception:
+                            pass
+            owners = [(p_, m_) for p_, m_ in trees if hasattr(m_, 'claim_leading_comment')]
+            c = r.random()
+            if c < 0.35 and ws:
+                p_, m_, name_, w_ = r.choice(ws)
+                how = r.choice(['unclaim_all', 'claim_all', 'unclaim_then_claim', 'append_comment', 'insert_comment', 'pop_comment'])
+                e = Edit(f'{p_}.{name_}.{how}')
+                try:
+                    items = [x for x in w_ if isinstance(x, models.BlockComment)]
+                    first_model = next((x for x in w_ if not isinstance(x, models.BlockComment)), None)
+                    ind = ''
+                    if first_model is not None and hasattr(first_model, 'raw_indent'):
+                        ind = first_model.raw_indent.value
+                    elif not isinstance(m_, models.File):
+                        ind = getattr(m_, 'indent_by', '    ')
+                        if isinstance(m_, models.Posting):
+                            ind = m_.indent + ind
+                    if how == 'unclaim_all':
+                        w_.unclaim_interleaving_comments()
+                    elif how == 'claim_all':
+                        w_.claim_interleaving_comments()
+                    elif how == 'unclaim_then_claim':
+                        w_.claim_interleaving_comments(w_.unclaim_interleaving_comments())
+                    elif how == 'append_comment':
+                        w_.append(models.BlockComment.from_value(r.choice(['cc', 'c1\nc2']), indent=ind))
+                    elif how == 'insert_comment':
+                        w_.insert(rand_index(r, len(w_)), models.BlockComment.from_value('ci', indent=ind))
+                    elif items:
+                        w_.pop(next(i for i, x in enumerate(w_) if x is items[-1]))
+                except Exception as x:
+                    e.exc = x
+                return e
+            if owners:
+                p_, m_ = r.choice(owners)
+                how = r.choice(['claim_leading_comment', 'claim_trailing_comment', 'unclaim_leading_comment', 'unclaim_trailing_comment'])
+                e = Edit(f'{p_}.{how}()')
+                try:
+                    getattr(m_, how)()
+                except Exception as x:
+                    e.exc = x
+                return e
         if kind < 0.15 and toks:
             # --- token value
             p, t = r.choice(toks)
